@@ -22,7 +22,7 @@ impl Suite {
         let mut u = vec![];
         for &k in &self.kinds {
             for &l in &self.lens {
-                if matches!(k, KindId::OArray | KindId::ArrayRef | KindId::ClonedArrayRef | KindId::OArray24 | KindId::OArrayBox) && l > 6 {
+                if matches!(k, KindId::OArray | KindId::ArrayRef | KindId::ClonedArrayRef | KindId::OArray24 | KindId::OArrayBox | KindId::OArrayZst) && l > 6 {
                     continue;
                 }
                 u.push((k, l, None));
@@ -42,7 +42,7 @@ fn kinds_where(f: impl Fn(&crate::exec::KindInfo) -> bool) -> Vec<KindId> {
 }
 fn small_kinds() -> Vec<KindId> {
     // every kind except the element-size variants
-    ALL_KINDS.iter().copied().filter(|k| !matches!(k, KindId::OVec24 | KindId::OArray24 | KindId::Iter24 | KindId::OVecBox | KindId::OArrayBox | KindId::IterBox | KindId::RangeX)).collect()
+    ALL_KINDS.iter().copied().filter(|k| !matches!(k, KindId::OVec24 | KindId::OArray24 | KindId::Iter24 | KindId::OVecBox | KindId::OArrayBox | KindId::IterBox | KindId::OVecZst | KindId::OArrayZst | KindId::SliceZst | KindId::RangeX)).collect()
 }
 
 pub fn suite(name: &str, thorough: bool) -> Suite {
@@ -67,6 +67,7 @@ pub fn suite(name: &str, thorough: bool) -> Suite {
             }
         }
         "C03" => {
+            s.kinds.extend([KindId::OVecZst, KindId::OArrayZst, KindId::SliceZst]);
             s.alphabet = alphabet(&["N", "C1:a", "C2:a", "C2:1", "C3:0", "C3:a", "CL0:a", "CL1:a", "CL1:1", "BN1", "BN2", "BN3", "BNL1", "BXa", "BX1", "BX0", "S", "HC3", "HN1", "HD"]);
             s.depth = if thorough { 5 } else { 4 };
             s.terms = vec![Term::Drop, Term::Seq(ALL)];
@@ -80,6 +81,7 @@ pub fn suite(name: &str, thorough: bool) -> Suite {
         }
         "C08" => {
             s.kinds = kinds_where(|k| k.consuming).into_iter().filter(|k| !matches!(k, KindId::OVecBox | KindId::OArrayBox | KindId::IterBox | KindId::OVec24 | KindId::OArray24 | KindId::Iter24)).collect();
+            s.kinds.extend([KindId::OVecZst, KindId::OArrayZst]);
             s.terms = vec![Term::Drop, Term::Seq(ALL), Term::Seq(1), Term::Seq(0)];
         }
         "C15" => {
@@ -104,7 +106,7 @@ pub fn suite(name: &str, thorough: bool) -> Suite {
         "C13" => {
             s.kinds = kinds_where(|k| k.adaptor);
             s.pair = true;
-            s.alphabet = alphabet(&["N", "I", "C2:a", "C3:1", "C1:0", "HC2", "HN1", "HD", "BN2", "BXa", "BX1", "BD", "S", "EF2", "V", "L", "H", "FO2"]);
+            s.alphabet = alphabet(&["N", "I", "C2:a", "C3:1", "C1:0", "HC2", "HN1", "HD", "BN2", "BXa", "BX1", "BD", "S", "EF2", "V", "L", "H", "FO2", "C0:a", "CMx:1"]);
             s.depth = if thorough { 5 } else { 4 };
         }
         "C16" => {
